@@ -1,4 +1,5 @@
 import Sp.FlatBasis5
+import Sp.FlatCanon
 
 /-! spike (C02) part 5: adding the simplex on `p` once all its facets exist -/
 namespace Flat
@@ -83,6 +84,9 @@ theorem finalAdd {cN : C} {p fs : List Name} {nm : Name} (hI : Inv cN) (hp : p.N
       have : x ∈ t.pts := by rw [hpq, List.mem_toFinset]; exact hxq
       rw [Simp.pts, List.mem_toFinset] at this
       exact this
+  have hunion' : (canonBasis cN fs).toFinset = p.toFinset := by
+    rw [canonBasis_toFinset hI (fun f hf => by
+      obtain ⟨q, hq, t, ht, hn, -⟩ := hface f hf; exact ⟨t, ht, hn⟩), hunion]
   have hcontract : InContract cN fs := by
     right
     have h1 : (dedupL (fs.flatMap cN.basisOf)).length = (dedupL (fs.flatMap cN.basisOf)).toFinset.card :=
@@ -133,10 +137,10 @@ theorem finalAdd {cN : C} {p fs : List Name} {nm : Name} (hI : Inv cN) (hp : p.N
       rw [hI.pts_card hs1, List.toFinset_card_of_nodup hp, hso, hlen]; omega)
   refine ⟨_, hsucc, addSimplex_ok_inv hI hcontract hsucc, sublist_insertSorted _ _, ?_, ?_, ?_, rfl⟩
   · refine ⟨_, mem_insertSorted.mpr (Or.inl rfl), rfl, ?_⟩
-    exact hunion
+    exact hunion'
   · intro t ht
     rcases mem_insertSorted.mp ht with rfl | h
-    · exact Or.inr hunion
+    · exact Or.inr hunion'
     · exact Or.inl h
   · intro n
     rw [contains_iff, contains_iff]
